@@ -535,11 +535,19 @@ theorem C18_key_flavour_items {h : Heap} (hg : GoodDicts h) {root : Ref} {n : No
 /-- **On a path that exists, a set cannot tell them apart either** — copying or in place, strict or not, every
 heap: same resulting heap, same result or same error.  `Ex h t p`: every key of `p` but the last addresses a
 stored child (the last may be fresh: a new dict key, the append index; whatever follows SELF / SKIP is ignored;
-Literal keys are the dict keys they are for `set`). -/
+Literal keys are the dict keys they are for `set`; below an ndarray anything goes — paths INTO arrays included). -/
 theorem C18_key_flavour_set (strict inPlace : Bool) (v : Ref) {h : Heap} {t : Ref} {p q : Path} (x : Ex h t p)
     (e : q.map PKey.flav = p.map PKey.flav) :
     setPath strict inPlace h t q v = setPath strict inPlace h t p v :=
   setPath_congr_flav strict inPlace v x e
+
+/-- … and for every path listed by `items()`: a set through any spelling of a listed path is the same set. -/
+theorem C18_key_flavour_items_set (strict inPlace : Bool) (v : Ref) {h : Heap} (hg : GoodDicts h) {root : Ref}
+    {n : Node} (hn : h[root]? = some n) (hc : n.children ≠ []) {kvs : List (Path × Ref)}
+    (hi : items h root = .ok kvs) {p : Path} {x : Ref} (hm : (p, x) ∈ kvs) {q : Path}
+    (e : q.map PKey.flav = p.map PKey.flav) :
+    setPath strict inPlace h root q v = setPath strict inPlace h root p v :=
+  setPath_congr_flav strict inPlace v (Ex.of_leafWalk hg ((C18_items hg hn hc hi).2.2 p x hm).1) e
 
 /-- In particular for every path of plain keys that READS: `copy_and_set` through any spelling of it. -/
 theorem C18_key_flavour_set_readable (strict : Bool) (v : Ref) {h : Heap} {t x : Ref} {p q : Path}
@@ -634,5 +642,7 @@ example : Ex h0 3 [.idx 0, .str "a"] := Ex.of_get _ 3 0 (by simp [PlainSelf, PKe
 example : Ex h0 3 [.int 0, .str "fresh"] :=
   .step (n := .list [2, 0]) rfl rfl (.last (n := .dict [(.str "a", 0), (.str "b", 1)]) _ rfl (by simp))
 example : [PKey.int 0, .str "a"].map PKey.flav = [PKey.idx 0, .str "a"].map PKey.flav := rfl
+example : Ex hA 3 [.str "a", .int 1, .idx 2, .str "anything"] :=
+  .step (n := .dict [(.str "a", 1), (.str "row", 2)]) rfl rfl (.nd _ _ (b := 0) (off := 0) (shape := [2, 3]) rfl)
 
 end MlModel.C18
